@@ -65,6 +65,9 @@ class C20(Prop):
                 base["comment_val"] = "100% legit = yes: [really] %(x)s"
                 base["source_val"] = "50%off"
                 base["url_suffix"] = "?k=%20a%2Fb&x=1"
+            elif g % 6 == 5:        # characters that command-line layers (argument files, shells) treat specially
+                base["comment_val"] = "@home: see @README, \"quoted\" $HOME ~user !x"
+                base["source_val"] = "@SceneGroup"
             if g % 4 == 3:
                 base["out_slash"] = True
             out.append(dict(base, route="kw", kw_str=g % 2 == 0))
